@@ -249,6 +249,68 @@ func (x *imgCtx) sparseReadCase(nid string, n *node, nExt int, hasHole bool) {
 	default:
 		c.Stat("sread-real-single-extent")
 	}
+	// The same handle again after seeking back: whatever Read keeps between calls (a cursor into the
+	// extent list, a cached block) must not survive a Seek. Drain the handle to EOF in block-sized
+	// chunks (a file with a trailing hole then has had a Read that starts behind its last extent),
+	// seek to 0 and read the whole file. Uses no random draws, so the cases above are unchanged.
+	if !bad && len(n.content) > 0 && len(n.content) <= 1<<22 {
+		bid := x.id + "/" + nid + "/sreadBack"
+		var got []byte
+		rerr := ""
+		res := guard(func() error {
+			buf := make([]byte, 4096)
+			for i := 0; i < len(n.content)/4096+8; i++ {
+				k, err := fl.Read(buf)
+				if err != nil || k == 0 {
+					break
+				}
+			}
+			if _, err := fl.Seek(0, io.SeekStart); err != nil {
+				rerr = "Seek(0): " + err.Error()
+				return nil
+			}
+			got = make([]byte, 0, len(n.content))
+			for len(got) <= len(n.content) {
+				k, err := fl.Read(buf)
+				if k < 0 || k > len(buf) {
+					rerr = fmt.Sprintf("Read returned n=%d", k)
+					break
+				}
+				got = append(got, buf[:k]...)
+				if err != nil {
+					if err != io.EOF {
+						rerr = err.Error()
+					}
+					break
+				}
+				if k == 0 {
+					rerr = "Read returned (0, nil)"
+					break
+				}
+			}
+			return nil
+		})
+		trailing := len(ex) > 0 && (int64(ex[len(ex)-1].FileBlock)+int64(ex[len(ex)-1].Count))*int64(bs) < size
+		if trailing || len(ex) == 0 {
+			c.Stat("sread-back-trailing-hole")
+		}
+		c.Stat("sread-back")
+		d := firstDiff(got, n.content)
+		switch {
+		case (res.panic != "" || rerr != "") && x.tolerated:
+			c.OK(bid)
+		case res.panic != "":
+			c.Fail(bid, "-", fmt.Sprintf("file %q: panic while re-reading the handle after Seek(0): %s", n.path, res.panic), x.desc)
+		case rerr != "":
+			c.Fail(bid, "-", fmt.Sprintf("file %q: re-reading the handle after draining it and Seek(0): %s", n.path, rerr), x.desc)
+		case d >= 0 && x.inUnwritten(n, d):
+			c.OK(bid) // judged under ext4-unwritten-extent-read-as-data by the sequence above
+		case d >= 0:
+			c.Fail(bid, "-", fmt.Sprintf("file %q (%d bytes, %d extents, trailing hole %v): after draining the handle to EOF and Seek(0) the handle returns %d bytes, first difference at +%d", n.path, len(n.content), len(ex), trailing, len(got), d), x.desc)
+		default:
+			c.OK(bid)
+		}
+	}
 }
 
 func gdImplStr(d ext4.VerifGroupDescriptor) []string {
